@@ -149,7 +149,7 @@ func TestVerifC13_CoordinatorDeterministic(t *testing.T) {
 	kit.Run(t, "C13", kit.Budget{Quick: 1500, Thorough: 15000},
 		fmt.Sprintf("the multi-epoch fixture of C16 (1-3 shards + meta, min nodes 1..4, with/without rater, intra/cross-shard distributor, validator info derived from the current configuration with leaving (rates 0-90%%, so the removal caps bind) / jailed / new / low-rated entries); %d freshly built coordinators (own shuffler each, different own keys, genesis maps built by ranging over a map) process the same 1-3 epoch start blocks (EpochStartPrepare + EpochStartAction; each node unmarshals its own body); after every block the eligible, waiting and leaving lists per shard of the new epoch, including the order inside every list, must be equal on all nodes (or the epoch refused by all); non-trivial = an epoch change with known leaving validators in >=2 shards (metachain included), at least one of them refused or capped (more leaving than may leave), distinct by the whole history", verifC13Nodes),
 		func(rt *rapid.T, c *kit.Case) {
-			keys := &verifSHBKeyGen{long: rapid.IntRange(0, 3).Draw(rt, "longKeys") == 0}
+			keys := verifSHBDrawKeyGen(rt)
 			s := verifSHBGenSetup(rt, keys)
 			selfKeys := []string{s.selfPK, "observer-B", s.initialKeys[len(s.initialKeys)-1]}
 			nodes := make([]*verifSHBCoord, verifC13Nodes)
